@@ -21,6 +21,7 @@ LEVEL = "fault_enumeration"
 ROLES = {"O": RELAY, "R1": RELAY, "R2": RELAY, "X": EXIT_ALL}
 PATHS = {1: ["X"], 2: ["R1", "X"], 3: ["R1", "R2", "X"]}
 LEGACY_CURVES = ("very-low", "low", "medium", "high")
+CHATTER_PERIOD = 7.0
 FAULT_WINDOW = 30.0     # seconds after the trigger during which sent datagrams are fault candidates
 
 
@@ -108,6 +109,10 @@ def scenarios() -> list[tuple]:
         # in the circuit key exchange: one scenario per legacy curve
         for curve, ph in zip(LEGACY_CURVES, [("ready", 0), ("transfer", 0), ("first-data", 0), ("ready", 0)]):
             out.append((h, f"offline+busy-legacy:{curve}", ph))
+        # abandoned mid-transfer while the outside host keeps answering: every CHATTER_PERIOD seconds an allowed packet
+        # arrives on each open outside socket until the deadline
+        for ph in (("transfer", 0), ("first-data", 0)):
+            out.append((h, "offline+chatty", ph))
     return out
 
 
@@ -152,6 +157,8 @@ def run_one(scn: tuple, faults: dict[int, str], seed: int):  # noqa: ANN201
         if busy:
             for name in path:
                 o = ov[name]
+                if busy == "chatty":
+                    continue
                 if busy == "busy":
                     o.candidates.clear()        # knows nobody it could build through ...
                 else:
@@ -168,7 +175,16 @@ def run_one(scn: tuple, faults: dict[int, str], seed: int):  # noqa: ANN201
             w.send_out("O", c, ("9.9.9.9", 99), BT_PAYLOAD)
         did = _teardown(w, ini, cid)
         T = deadline(ov["O"].settings)
-        w.run_for(T)
+        if busy == "chatty":
+            end = w.loop.time() + T
+            while w.loop.time() < end:
+                w.run_for(min(CHATTER_PERIOD, end - w.loop.time()))
+                for t in w.open_transports():
+                    t.inject(BT_PAYLOAD, ("9.9.9.9", 99))
+                w.loop.settle()
+            w.flush()
+        else:
+            w.run_for(T)
         sizes = w.table_sizes()
         open_tr = [(t.owner.name if t.owner else None, t.local_addr) for t in w.open_transports()]
         o_circ = ov["O"].circuits.get(cid)
@@ -248,8 +264,10 @@ def explore_scenarios(chunk: list) -> list:
                     viols[key] = (what, {"scenario": scn, "faults": faults, "seed": _SEED})
             return n
 
+        bound = 1 if ("chatty" in str(scn[1]) and _BOUND <= 2) else _BOUND   # quick: chatty scenarios get single faults
+
         def dfs(drops: tuple, n: int) -> None:
-            if len(drops) >= _BOUND:
+            if len(drops) >= bound:
                 return
             start = drops[-1] + 1 if drops else 0
             for j in range(start, n):
@@ -269,7 +287,7 @@ def explore_scenarios(chunk: list) -> list:
             for j in range(n0):
                 run({j: "dup"})
                 run({j: "delay"})
-                if _BOUND >= 2:
+                if bound >= 2:
                     for i in range(n0 + 2):
                         if i != j:
                             run({j: "dup", i: "drop"} if i > j else {i: "drop", j: "dup"})
